@@ -74,6 +74,41 @@ class Gen:
         c.append("note(o).cnt")
         return r.choice(c)
 
+    def cond(self):
+        r = self.r
+        k = r.randrange(5)
+        if k == 0: return self.expr(2)
+        if k == 1: return f"B({self.expr(2)})"                  # truth test with a visible effect
+        if k == 2: return f"not B({self.expr(2)})"
+        if k == 3: return f"(B({self.expr(2)}) and B({self.expr(2)}))"
+        return f"{self.expr(2)} {r.choice(['<', '==', '!=', '>='])} {self.expr(2)}"
+
+    def block(self, depth):
+        r = self.r
+        n = r.randrange(1, 3)
+        out = []
+        for _ in range(n):
+            k = r.randrange(6)
+            if k == 0: out += ["R"]                              # a statement whose value cannot be truth-tested
+            elif k == 1: out += ["note(R)"]
+            elif k == 2: out += [f"B({self.expr(2)})"]           # ... or whose truth test is visible
+            else: out += self.stmt_lines(depth + 1)
+        return out
+
+    def if_lines(self, depth):
+        r = self.r
+        L = [f"if {self.cond()}:"] + ["    " + l for l in self.block(depth)]
+        for _ in range(r.randrange(0, 2)):
+            L += [f"elif {self.cond()}:"] + ["    " + l for l in self.block(depth)]
+        if r.randrange(3):
+            L += ["else:"] + ["    " + l for l in self.block(depth)]
+        return L
+
+    def stmt_lines(self, depth=0):
+        if depth < 2 and self.r.randrange(4) == 0:
+            return self.if_lines(depth)
+        return [self.stmt()]
+
     def stmt(self):
         r = self.r
         k = r.randrange(12)
@@ -99,9 +134,11 @@ class Gen:
         self.names, self.attrs, self.keys = ["x", "y", "z", "_", "k", "v", "it", "self", "total", "n1"], [], []
         L = ["o = type('O', (), {'cnt': 0})()", "d = {}", "l = [3, 1, 2]", "log = []",
              "note = lambda v: (log.append(repr(v)[:40] if isinstance(v, (int, float, str, list, tuple)) else type(v).__name__), v)[1]",
-             "x = y = z = _ = k = v = it = self = total = n1 = 0"]
+             "x = y = z = _ = k = v = it = self = total = n1 = 0", "o.a = o.b = o.c = d['p'] = d['q'] = d[1] = d[(1, 2)] = 0"]
+        L += ["B = type('B', (), {'__init__': lambda s, v: setattr(s, 'v', v), '__bool__': lambda s: (log.append('bool:%r' % (s.v,)), bool(s.v))[1]})",
+              "R = type('R', (), {'__bool__': lambda s: 1 // 0, '__len__': lambda s: 1 // 0})()"]
         for _ in range(self.r.randrange(3, 14)):
-            L.append(self.stmt())
+            L += self.stmt_lines()
         L.append("print(sorted(vars(o).items()), sorted(d.items(), key=repr), l, log)")
         return "\n".join(L) + "\n"
 
@@ -114,6 +151,10 @@ FIXED = [
     "x = 1\nglobal_ = 2\npass\nx\n(y := x + global_)\nprint(x, y)\n",
     "log = []\nf = lambda v: (log.append(v if isinstance(v, (int, str)) else type(v).__name__), v)[1]\no = type('O', (), {})()\nd = {}\nf(o).a = f(d)[f('k')] = x = f(3)\nf(d)[f('k')] += f(4)\nf(o).a -= f(1)\nprint(log, o.a, d, x)\n",
     "_ = 1\n__ = 2\n_ += __\nprint(_, __)\n",
+    # the truth value of a condition is taken once, that of a statement's value never
+    "log = []\nB = type('B', (), {'__init__': lambda s, v: setattr(s, 'v', v), '__bool__': lambda s: (log.append('bool:%r' % (s.v,)), bool(s.v))[1]})\n"
+    "R = type('R', (), {'__bool__': lambda s: 1 // 0})()\nx = 0\nif B(0):\n    R\nelse:\n    x += 1\nif B(1):\n    R\nelse:\n    x += 2\n"
+    "if B(0):\n    x += 4\nelif B(''):\n    R\nelif B(3):\n    R\n    R\nelse:\n    R\nif not B(5):\n    pass\nelse:\n    B(6)\nprint(x, log)\n",
 ]
 
 
